@@ -24,7 +24,13 @@ def parseReq (args : List String) : Option Req :=
 
 def implExpl (impl : String) : Option (Option (List ClauseExpl)) :=
   match sections impl with
-  | [_, e] => explOfWire e
+  | [_, _, e] => explOfWire e
+  | _ => none
+
+/-- the derived data the handler gave to the explanation (`D -`: none). -/
+def implDerivedOpt (impl : String) : Option (Option DB) :=
+  match sections impl with
+  | _ :: d :: _ => if d == "D -" then some none else if d.startsWith "D " then (dbOfWire (d.drop 2).toString).map some else none
   | _ => none
 
 /-- does the positive atom at body position `i` meet a variable that is still unbound when it is
@@ -48,21 +54,15 @@ def blockerIdx : Blocker → Option Nat
   | .cmpFailed i => some i
   | .cmpError i => some i
 
-/-- known defect families, from the program and the offending clause report:
-    * `derived_atom_invisible`: the reported blocker is "no matching tuples" for an atom over a relation
-      that has rules — `why_not_query` builds the context without derived data (handler.rs:684);
-    * `neg_derived_invisible`: a clause is reported unblocked although it cannot fire, and it negates a
-      relation that has rules (negated atoms are looked up in base data only, why_not.rs:212);
-    * `greedy_first_match`: the tuple is derived, yet every clause is reported blocked, the reported
-      blocker sitting behind a positive atom that had to choose a binding (first match, no
-      backtracking, why_not.rs:186). -/
-def classify (prog : Program) (r : Rule) (c : ClauseExpl) (fires : Bool) : String :=
+/-- the one known defect family left, from the program and the offending clause report:
+    `greedy_first_match`: the tuple is derived, yet every clause is reported blocked, the reported
+    blocker sitting behind a positive atom that had to choose a binding (first match, no
+    backtracking, why_not.rs `matches[0]`). (`derived_atom_invisible` and `neg_derived_invisible` are
+    fixed; their witnesses are replayed from corpus/C23.) -/
+def classify (_prog : Program) (r : Rule) (c : ClauseExpl) (fires : Bool) : String :=
   match c.blocker with
-  | some (.atomFailed i rel _) =>
-    if hasRules prog rel then "derived_atom_invisible"
-    else if fires && choiceBefore r i then "greedy_first_match" else "unclassified"
   | some b => if fires && choiceBefore r ((blockerIdx b).getD 0) then "greedy_first_match" else "unclassified"
-  | none => if r.body.any (fun | .neg a => hasRules prog a.rel | _ => false) then "neg_derived_invisible" else "unclassified"
+  | none => "unclassified"
 
 def judge (q : Req) (expl : Option (List ClauseExpl)) : String × Bool :=
   match pmEval q.kg.rules q.kg.base with
@@ -102,20 +102,21 @@ def whynot : Handler := fun args impl =>
   | none => badReq
   | some q0 =>
     if !supportedReq q0.kg then { model := "unsupported", spec := "na", nt := false } else
-    match implPerm impl with
-    | none => { model := impl, spec := "na", nt := false }
-    | some perm =>
+    match implPerm impl, implDerivedOpt impl with
+    | some perm, some dOpt =>
       match applyPerm q0.kg.rules perm with
       | none => { model := "bad-clause-order", spec := "na", nt := false }
       | some rules =>
         let q := { q0 with kg := { q0.kg with rules := rules } }
-        let ctx : Ctx := { rules := rules, base := q.kg.base, derived := none }
-        let m := permWire perm ++ " | " ++ explWire (explainWhyNot ctx q.rel q.target)
+        let ctx : Ctx := { rules := rules, base := q.kg.base, derived := dOpt }
+        let m := permWire perm ++ " | D " ++ (match dOpt with | some d => dbWire d | none => "-") ++ " | " ++
+          explWire (explainWhyNot ctx q.rel q.target)
         match implExpl impl with
         | none => { model := m, spec := specFail "unclassified" "unparsable-impl-output", nt := false }
         | some e =>
           let (s, nt) := judge q e
           { model := m, spec := s, nt := nt }
+    | _, _ => { model := impl, spec := "na", nt := false }
 
 def handlers : List (String × Handler) := [("c23.whynot", whynot)]
 
